@@ -36,7 +36,8 @@ struct G<'a> {
     our_iws: i64,              // the initial stream window we advertised and the peer acknowledged
     pending_iws: Option<i64>,  // announced, not yet acknowledged by the (scripted) peer
     settings_to_ack: usize,
-    pongs_owed: Vec<Vec<u8>>,   // PINGs the endpoint sent and the peer has not answered yet
+    pongs_owed: Vec<Vec<u8>>,
+    mhl: Option<usize>,         // max_header_list_size, when configured   // PINGs the endpoint sent and the peer has not answered yet
     next_peer_sid: u32,
     woken: BTreeSet<String>,
     dead: bool,
@@ -822,6 +823,28 @@ impl<'a> G<'a> {
             }
         }
         let n_generic = cands.len();
+        // a header block that never ends: a field with a huge declared length keeps HPACK waiting for more, so the block
+        // never gets over size; only the limit on the number of CONTINUATION frames (derived from max_header_list_size)
+        // stands between the peer and unbounded buffering.  With max_header_list_size = 16 KiB a handful is allowed.
+        if self.mhl.is_some() {
+            let hsid = if client { some_sid.max(1) } else { self.next_peer_sid + 2 };
+            let mut payload = if client { vec![0x88] } else { vec![0x82, 0x86, 0x84, 0x41, 0x01, b'a'] };
+            payload.extend_from_slice(&[0x00, 0x01, b'x', 0x7f]);
+            let mut n: u64 = 134_217_728 - 127;
+            while n >= 128 {
+                payload.push((n % 128) as u8 | 0x80);
+                n /= 128;
+            }
+            payload.push(n as u8);
+            let mut b = wire(1, 0, hsid, &payload);
+            for _ in 0..12 {
+                b.extend(wire(9, 0, hsid, &[b'v'; 40]));
+            }
+            if client == false || some_sid != 0 {
+                cands.push(("conn", 0, b.clone()));
+                cands.push(("conn", 0, b));
+            }
+        }
         if client {
             cands.push(("conn", 0, wire(1, 4, unused_peer_id, &[0x88])));                         // server opens a stream with HEADERS
             cands.push(("conn", 0, wire(5, 4, some_sid.max(1), &[0, 0, 0, 1, 0x82, 0x86, 0x84]))); // PUSH_PROMISE promising an odd id
@@ -1088,6 +1111,11 @@ pub fn generate(profile: &str, rng: &mut Rng, cases: usize, out: &mut dyn Write)
         if rng.chance(1, 6) {
             opts.push("reset_secs=0".to_string());
         }
+        let mut mhl = None;
+        if flavor == "c09" && rng.chance(1, 4) {
+            mhl = Some(16384usize);
+            opts.push("mhl=16384".to_string());
+        }
         let mut g = G {
             rng,
             out,
@@ -1102,6 +1130,7 @@ pub fn generate(profile: &str, rng: &mut Rng, cases: usize, out: &mut dyn Write)
             pending_iws: None,
             settings_to_ack: 0,
             pongs_owed: vec![],
+            mhl,
             next_peer_sid: 1,
             woken: BTreeSet::new(),
             dead: false,
